@@ -308,8 +308,9 @@ Section Script.
 
   (* ------------------------------------------------------------------ known defect classes (over the input) *)
   (* does the handle own a _StatePointDict before the operation *)
+  (* (init, statepoint access, and - since fix 0894ce6 - being pickled or shallow-copied instantiate it) *)
   Definition has_cell (i : input_C04) : bool :=
-    match i_prov i with PInit => true | _ => i_access i end.
+    match i_prov i with PInit => true | _ => i_access i || i_pickle i || Nat.ltb 0 (i_shallow i) end.
 
   (* what SyncedDict._update is applied to, and with what *)
   Definition merge_args (i : input_C04) : option (json * json) :=
@@ -343,16 +344,11 @@ Section Script.
     | _, _ => false
     end.
 
-  (* tag 2: a shallow copy taken before the source handle ever accessed its state point gets a cell of its own *)
-  Definition class_early_copy (i : input_C04) : bool :=
-    negb (has_cell i) && Nat.ltb 0 (i_shallow i) && rekey_route (i_route i).
-
-  (* tags 1 (stale cached_statepoint) and 4 (root saved in the middle of _update) were repaired in /repo
-     (fix: aa8b5a9, 3806f72) and are no longer classified: such a violation is reported. *)
+  (* tags 1 (stale cached_statepoint), 2 (copy.copy before the state point was accessed) and 4 (root saved in the
+     middle of _update) were repaired in /repo (fix: aa8b5a9, 0894ce6, 3806f72) and are no longer classified. *)
   Definition known_tag (i : input_C04) (outs : list oval) : nat :=
     if holds_in i outs then 0
     else if class_drop i || class_drop_rollback i then 3
-    else if class_early_copy i && holds_mask (mkMask false true) i outs then 2
     else 0.
 End Script.
 
